@@ -536,7 +536,7 @@ def run(tier, seed):
             hist.append(json.load(open(out)) if os.path.exists(out) else {"sha": {}})
         return hist
     if tier == "quick":
-        todo, uncovered = select(classes, 6, rng)
+        todo, uncovered = select(classes, 5, rng)
         pools = [(2, 3, list(GROUP_HEAD))]
     else:
         single = [c for c in classes if len(c["procs"]) == 1 and c["nworkers"] == 1]
@@ -615,7 +615,7 @@ def run(tier, seed):
         "rule": "environment classes = final states of the model: job order x PYTHONHASHSEED {0, 1, seeded, random} x {1, 2} worker processes x "
                 "process histories (which jobs each process ran, in order); a class is executed as one real process per model process that "
                 "compiles the modules of its jobs consecutively; every output is compared byte-wise with the fresh output (module alone in a "
-                "new process); quick: 6 seeded classes that cover every hazard signature (key mode x stale module) of the too-coarse-memo "
+                "new process); quick: 5 seeded classes that cover every hazard signature (key mode x stale module) of the too-coarse-memo "
                 "models + 1 cythonize(nthreads=2) batch, thorough: every job order in one process, the cover, 16 two-process classes, 3 batches; "
                 "non-trivial = module compiled by a process that compiled something else before",
         "samples": [{"class": c, "n_outputs": len([1 for v in r["sha"].values() if v])} for c, r in results[:3]],
